@@ -193,3 +193,42 @@ package ctree
 //@   props C09 C05 C12
 //@   requires t != nil && TreeWf() && f != nil
 //@   modifies ghost visitedT, ghost visits, ghost lastVisited
+
+// walkInternal / walkInternalSorted: every child is entered once with a path
+// of its own (a fresh copy: visitors may keep the path they receive); a leaf is
+// reported with its path and value; the empty root is not reported.
+//@ func (*Tree).walkInternal
+//@   props C09 C10 C12
+//@   locks t
+//@   requires t != nil && TreeWf() && f != nil
+//@   freezes path
+//@   effect visitedT := union1(visitedT, t)
+//@   modifies ghost visitedT, ghost visits, ghost lastVisited
+//@   ensures [visited-grows] forall x ref :: old(visitedT[x]) || x == t ==> visitedT[x]
+//@   invariant 0: [every-child-entered C09] (forall k string :: $visited[k] ==> visitedT[b[k]]) && (forall x ref :: old(visitedT[x]) || x == t ==> visitedT[x]) && rheld(t.mu) && TreeWf() && t.leafBranch == old(t.leafBranch)
+//@   assert at call (*Tree).walkInternal#0: [child-path-is-own-copy C09] rheld(t.mu) && arg0 != nil && arg0 == b[name] && view(arg1) == view(path) ++ unit(name) && !frozen(arg1)
+//@   assert at call param f#0: [leaf-reported-with-its-path-and-value C09] IsLeaf(t) || (t.leafBranch == nil && len(path) > 0)
+//@   ensures [nothing-missed C09] old(IsBranch(t)) && res0 == nil ==> (forall k string :: old(has(Kids(t), k)) ==> visitedT[old(Kids(t)[k])])
+
+//@ func (*Tree).walkInternalSorted
+//@   props C09 C10 C12
+//@   locks t
+//@   requires t != nil && TreeWf() && f != nil
+//@   freezes path
+//@   effect visitedT := union1(visitedT, t)
+//@   modifies ghost visitedT, ghost visits, ghost lastVisited
+//@   ensures [visited-grows] forall x ref :: old(visitedT[x]) || x == t ==> visitedT[x]
+//@   invariant 0: fresh(names) && len(names) == len($visited) && rheld(t.mu) && t.leafBranch == old(t.leafBranch) && (forall j int :: 0 <= j && j < len(names) ==> has(b, names[j]))
+//@   invariant 1: fresh(names) && rheld(t.mu) && TreeWf() && t.leafBranch == old(t.leafBranch) && (forall x ref :: old(visitedT[x]) || x == t ==> visitedT[x])
+//@     && (forall j int :: 0 <= j && j < len(names) ==> has(b, names[j]))
+//@   assert at call sort.Strings#0: [children-in-lexicographic-order C09] arg0 == names
+//@   assert at call (*Tree).walkInternalSorted#0: [child-path-is-own-copy C09] rheld(t.mu) && arg0 != nil && arg0 == b[name] && view(arg1) == view(path) ++ unit(name) && !frozen(arg1)
+
+//@ func (*Tree).Walk
+//@   props C09 C12
+//@   requires t != nil && TreeWf() && f != nil
+//@   modifies ghost visitedT, ghost visits, ghost lastVisited
+//@ func (*Tree).WalkSorted
+//@   props C09 C12
+//@   requires t != nil && TreeWf() && f != nil
+//@   modifies ghost visitedT, ghost visits, ghost lastVisited
